@@ -33,3 +33,4 @@ import LyModel.Props.C07Completion
 #print axioms LyModel.Props.C07.implicit_exact_tree
 #print axioms LyModel.Props.C07.implicit_exact_tree_of_B
 #print axioms LyModel.Props.C07.implicit_exact_tree_nonfresh_fails
+#print axioms LyModel.Props.C07.valdiff_exact_partial_top
